@@ -635,6 +635,29 @@ def K3():
         return True, "the witness UTXO record is dropped on serialisation and the result no longer parses: %s" % str(e)[:60]
     return q.serialize() != raw, "round trip %s" % ("differs" if q.serialize() != raw else "identical")
 
+def F36():
+    """taproot key path spend with an annex, signed over the BIP341 key path digest"""
+    import contextlib, io
+    from buidl.ecc import PrivateKey
+    from buidl.script import P2TRScriptPubKey
+    from buidl.tx import Tx, TxIn, TxOut
+    from buidl.witness import Witness
+    priv = PrivateKey(12345)
+    spk = P2TRScriptPubKey(priv.point.tweaked_key(b""))
+    tx_in = TxIn(b"\x11" * 32, 0)
+    tx_in._value, tx_in._script_pubkey = 100000, spk
+    tx = Tx(2, [tx_in], [TxOut(90000, spk)], 0, network="testnet", segwit=True)
+    annex = b"\x50\x01\x02"
+    tx_in.witness = Witness([b"\x00" * 64, annex])
+    msg = tx.sig_hash_bip341(0, ext_flag=0, hash_type=0)
+    tx_in.witness = Witness([priv.tweaked_key(b"").sign_schnorr(msg).serialize(), annex])
+    try:
+        with contextlib.redirect_stdout(io.StringIO()):
+            r = tx.verify_input(0)
+    except Exception as e:
+        r = "%s" % type(e).__name__
+    return r is not True, "verify_input of a key path spend with annex -> %s" % r
+
 def K1():
     from buidl.op import op_2rot
     st = [b"1", b"2", b"3", b"4", b"5", b"6"]
